@@ -589,14 +589,20 @@ example : ∃ s, Reg.run (Reg.St.init false)
 
 /-- What the check is there to catch (the family "addHost looks up under the read lock, builds the pool unlocked and
     stores it under the write lock without looking again"): two callers both miss, both build a pool, the second store
-    overwrites the first — two live pool objects for one host, both filled; pool 0 is not registered, and after
-    removeHost / policyConnPool.Close it is still open. -/
+    overwrites the first — two live pool objects for one host, both filled; pool 0 is not registered, and along EVERY
+    continuation (any further addHost / removeHost / policyConnPool.Close callers, any interleaving) it stays open,
+    unregistered and uncommitted to be closed: out of the reach of removeHost and Close for good. -/
 theorem C17_split_lock_orphans_pool :
     ∃ s, Reg.runSplit (Reg.St.init false) [.callAdd, .callAdd, .sLookup, .sLookup, .sMake, .sMake, .sStore 0, .sStore 1,
         .fill 0, .fill 1] = some s ∧
       s.live 0 ∧ s.live 1 ∧ s.reg = some 1 ∧ s.filled = [0, 1] ∧
-      ∃ s', Reg.runSplit s [.callClose, .clLock, .clSweep, .clUnlock] = some s' ∧ s'.live 0 ∧ s'.reg = none ∧ s'.crit = none := by
-  refine ⟨_, rfl, ?_, ?_, by decide, by decide, _, rfl, ?_, by decide, by decide⟩ <;>
-    (refine ⟨by decide, by decide, by decide⟩)
+      ∀ (bs : List Reg.Act) (s' : Reg.St), Reg.runSplit s bs = some s' → s'.live 0 ∧ s'.reg ≠ some 0 := by
+  refine ⟨_, rfl, ?_, ?_, by decide, by decide, ?_⟩
+  · exact ⟨by decide, by decide, by decide⟩
+  · exact ⟨by decide, by decide, by decide⟩
+  · intro bs s' hr
+    have h := C17Reg.orphan0_run bs _ s'
+      ⟨by decide, by decide, by decide, by decide, by decide, by decide, by decide, by decide, by decide⟩ hr
+    exact ⟨⟨h.open0, h.crit.2.2.2, h.notDoomed⟩, h.notReg⟩
 
 end C17
